@@ -396,6 +396,11 @@ func (n *Node) callOn(inc *Incarnation, fn func()) (panicText string) {
 			}
 			done <- ""
 		}()
+		if inc != nil {
+			// a call that arrives while the incarnation is still being wired (hooks not yet installed) waits, as a
+			// delivery does
+			inc.waitReady()
+		}
 		fn()
 	}()
 	var dead chan struct{}
